@@ -101,6 +101,8 @@ POOLS = [
 
 def _random_table(rng, i, big):
     n = rng.randint(5, 40 if big else 12)
+    if big and rng.random() < 0.1:
+        n = rng.choice([64, 65, 130, 257, 300])  # beyond the sizes at which a sort might switch strategy
     nkeys = rng.randint(1, 3)
     keycols = []
     for _ in range(nkeys):
